@@ -101,6 +101,7 @@ fn item(ctx: &Ctx, i: usize, rep: &mut Report) {
         }
         let mut in_heap_until = 0usize;
         for (idx, x) in stream.iter().enumerate() {
+            beat();
             if clone_at == Some(idx) {
                 // continue on a clone: a copy must carry everything later answers depend on
                 heap = heap.clone();
